@@ -518,6 +518,9 @@ func replayC03(env *Env) {
 		}
 	}
 	parallel(len(cases), 0, func(i int) {
+		if env.tooManyFailures() {
+			return
+		}
 		func() {
 			defer func() {
 				if r := recover(); r != nil {
